@@ -142,6 +142,18 @@ pub fn c12_step(cx: &StepCtx<'_, impl Sized>, info: &InputInfo, st: &mut C12Stat
                         }
                     } else {
                         C12_TALLY[2].fetch_add(1, Relaxed);
+                        // the verdict concerns a member that is still there:
+                        // one that went away during the round (Down, or Down
+                        // and forgotten) is neither suspected nor brought back
+                        let gone = rec_pre.is_none() || rec_pre.is_some_and(|m| m.state() == State::Down);
+                        // (a timeout scheduled for an identity that is not there
+                        // any more is tolerated: it can only be stale, C11's business)
+                        if gone && rec_post.map(show_member) != rec_pre.map(show_member) {
+                            return Err(viol(
+                                "c12:verdict-on-departed-member",
+                                format!("round of {} ended after it had gone ({:?}), yet its record is now {:?} and {} suspicion timeouts were scheduled", r.target.show(), rec_pre.map(show_member), rec_post.map(show_member), susp_timers.len()),
+                            ));
+                        }
                     }
                 }
             }
